@@ -1,6 +1,8 @@
 #![allow(dead_code)]
 mod adapters;
 mod corpus;
+mod emitrun;
+mod eoracle;
 mod hirobs;
 mod horacle;
 mod fsrun;
@@ -18,6 +20,8 @@ fn main() {
         "names-impl" => names::cmd_impl(&args),
         "fs" => fsrun::cmd_fs(&args),
         "hir" => hirobs::cmd_hir(&args),
+        "emit" => emitrun::cmd_emit(&args),
+        "emit-canon" => emitrun::cmd_emit_canon(&args),
         "adapters-gen" => adapters::cmd_gen(&args),
         "adapters-impl" => adapters::cmd_impl(&args),
         "adapters-canon" => adapters::cmd_canon(&args),
